@@ -1034,3 +1034,146 @@ M.contract('exactly_lib.impls.actors.file_interpreter:_ActionToCheck.execute',
                    (result.is_exit_code and result.exit_code == execution_results(trace)[0])
                    if len(execution_results(trace)) == 1 else (result.is_hard_error and not result.is_exit_code),
            }, raises_only=())
+
+
+# ------------------------------------------------------------------------------ (4) the source of the setting
+
+from exactly_lib.execution.partial_execution.impl import executor as partial_executor
+from exactly_lib.impls.instructions.multi_phase.timeout import impl as timeout_impl
+from exactly_lib.definitions import os_proc_env
+from exactly_lib.test_case import phase_identifier
+
+P_PX = 'exactly_lib.execution.partial_execution.impl.executor'
+P_IS = 'exactly_lib.test_case.phases.instruction_settings'
+
+# the environ of the settings is irrelevant here: None or some dict
+INSTRUCTION_SETTINGS = Inst(InstructionSettings, _environ=Union(Const(None), Const({'VAR': 'value'})), _default_environ_getter=Any_,
+                            _timeout_in_seconds=Opt(Nat))
+
+M.contract(P_IS + ':InstructionSettings.set_timeout', inline=True,
+           params=dict(self=INSTRUCTION_SETTINGS, seconds=Opt(Nat)),
+           ensures={'stores-the-value (None: no limit)': lambda self, seconds: self._timeout_in_seconds == seconds},
+           raises_only=())
+M.contract(P_IS + ':InstructionSettings.timeout_in_seconds', inline=True,
+           params=dict(self=INSTRUCTION_SETTINGS),
+           ensures={'the-value-last-stored': lambda self, result: result == self._timeout_in_seconds}, raises_only=())
+
+
+class ConfValuesI(Interface):
+    attrs = {'hds': Any_}
+
+
+class ExeConfI(Interface):
+    attrs = {'mem_buff_size': Nat}
+
+
+class PhaseTmpSpaceI(Interface):
+    methods = {'instruction__main': Method(returns=Any_), 'instruction__validation': Method(returns=Any_)}
+
+
+PARTIAL_EXECUTOR = Inst(partial_executor._PartialExecutor, conf_values=Iface(ConfValuesI), exe_conf=Iface(ExeConfI),
+                        _instruction_settings=INSTRUCTION_SETTINGS,
+                        _PartialExecutor__sandbox_directory_structure=Any_,
+                        _PartialExecutor__post_sds_symbol_table=Any_,
+                        _phase_tmp_space_factory=Iface(PhaseTmpSpaceI),
+                        _action_to_check=Const(None), _instruction_environment_pre_sds=Const(None))
+
+M.contract(P_PX + ':_PartialExecutor._post_sds_environment', inline=True,
+           params=dict(self=PARTIAL_EXECUTOR, tmp_file_storage=Any_, symbols=Any_),
+           ensures={'the environment carries the timeout that is in the instruction settings NOW':
+                    lambda self, result: type(result) is InstructionEnvironmentForPostSdsStep
+                                         and type(result._proc_exe_settings) is ProcessExecutionSettings
+                                         and env_timeout(result) == self._instruction_settings._timeout_in_seconds},
+           raises_only=())
+
+M.contract(P_PX + ':_PartialExecutor._setup_pre_sds_environment',
+           params=dict(self=PARTIAL_EXECUTOR, atc=Any_, symbols=Any_),
+           ensures={'the pre-sds environment carries the timeout that is in the instruction settings NOW':
+                    lambda self: type(self._instruction_environment_pre_sds) is InstructionEnvironmentForPreSdsStep
+                                 and env_timeout(self._instruction_environment_pre_sds)
+                                 == self._instruction_settings._timeout_in_seconds},
+           raises_only=())
+
+
+# --- the `timeout` instruction
+
+TIMEOUT_VALUE = 'timeout-value'
+
+
+class IntegerDdvI(Interface):
+    methods = {'value_of_any_dependency': Method(returns=Nat, event=TIMEOUT_VALUE), 'validator': Method(returns=Any_)}
+
+
+class IntegerSdvI(Interface):
+    attrs = {'references': Any_}
+    methods = {'resolve': Method(returns=Iface(IntegerDdvI))}
+
+
+TIMEOUT_INSTRUCTION = Inst(timeout_impl.TheInstructionEmbryo, _value=Opt(Iface(IntegerSdvI)))
+
+
+def value_written(instruction, trace):
+    """the value denoted by `timeout = INTEGER|none`: None for none, else the integer the expression resolves to"""
+    if instruction._value is None:
+        return None
+    return [e[2] for e in trace if e[0] == TIMEOUT_VALUE + ':returned'][0]
+
+
+M.contract('exactly_lib.impls.instructions.multi_phase.timeout.impl:TheInstructionEmbryo.main', inline=True,
+           params=dict(self=TIMEOUT_INSTRUCTION, environment=ENV_POST_SDS, settings=INSTRUCTION_SETTINGS,
+                       os_services=OS_SERVICES),
+           ensures={'stores the denoted value in the instruction settings (none: no limit)':
+                    lambda self, settings, trace: settings._timeout_in_seconds == value_written(self, trace)},
+           raises_only=())
+
+
+def timeout_instruction_then_next_instruction(px, phase, instruction, os_services):
+    """Scenario (what SetupMainExecutor / AssertMainExecutor ... .apply do for two consecutive instructions,
+    the first being `timeout = ...`): each main step gets `next(environments)`."""
+    environments = px._post_sds_main_environments(phase)
+    env_of_timeout_instruction = next(environments)
+    instruction.main(env_of_timeout_instruction, px._instruction_settings, os_services)
+    env_of_next_instruction = next(environments)
+    return env_of_timeout_instruction, env_of_next_instruction
+
+
+M.contract('contracts.C19_timeouts:timeout_instruction_then_next_instruction',
+           params=dict(px=PARTIAL_EXECUTOR, phase=OneOf(phase_identifier.SETUP, phase_identifier.BEFORE_ASSERT, phase_identifier.ASSERT,
+                                         phase_identifier.CLEANUP), instruction=TIMEOUT_INSTRUCTION,
+                       os_services=OS_SERVICES),
+           old=lambda px: px._instruction_settings._timeout_in_seconds,
+           ensures={
+               'only from that point on: the environment handed out before keeps the old timeout':
+                   lambda result, old: env_timeout(result[0]) == old,
+               'the next instruction gets the value last set (none: no limit)':
+                   lambda instruction, result, trace: env_timeout(result[1]) == value_written(instruction, trace),
+           }, raises_only=())
+
+
+@M.check('setting-source')
+def _setting_source(ctx):
+    """frame: who can write the timeout; and where the default comes from"""
+    root = os.path.join(REPO_SRC, 'exactly_lib')
+    writers = []
+    for dirpath, _dirs, files in os.walk(root):
+        for fn in files:
+            if not fn.endswith('.py'):
+                continue
+            path = os.path.join(dirpath, fn)
+            rel = os.path.relpath(path, root).replace(os.sep, '/')
+            for n in ast.walk(ast.parse(open(path, encoding='utf-8').read(), path)):
+                if isinstance(n, ast.Attribute) and n.attr == 'set_timeout':
+                    writers.append((rel, n.lineno, 'set_timeout'))
+                if isinstance(n, ast.Attribute) and n.attr == '_timeout_in_seconds' and isinstance(n.ctx, ast.Store) \
+                        and rel != 'execution/configuration.py':     # PredefinedProperties: another class, read-only
+                    writers.append((rel, n.lineno, '_timeout_in_seconds ='))
+    expected = {('impls/instructions/multi_phase/timeout/impl.py', 'set_timeout'),
+                ('test_case/phases/instruction_settings.py', '_timeout_in_seconds =')}
+    ctx.obligation('the only writer of InstructionSettings._timeout_in_seconds is set_timeout, whose only caller is the '
+                   'main step of the `timeout` instruction (besides the constructor)',
+                   {(r, w) for (r, _l, w) in writers} == expected
+                   and len([w for w in writers if w[2] == 'set_timeout']) == 1
+                   and len([w for w in writers if w[2] != 'set_timeout']) == 2,
+                   'scan', detail={'writers': writers})
+    ctx.obligation('TIMEOUT__DEFAULT == 60', os_proc_env.TIMEOUT__DEFAULT == 60, 'enumeration',
+                   detail={'value': os_proc_env.TIMEOUT__DEFAULT})
